@@ -1,4 +1,12 @@
 import Ledger.Driver.Core
+import Ledger.Driver.Machine
 
 /-! `ldriver_machine`: correspondence driver for the Machine area (core-only). -/
-def main : IO Unit := Ledger.Driver.runDriver []
+def main : IO Unit := Ledger.Driver.runDriver [
+  ("prog", Ledger.Driver.handleProg ""),
+  ("prog-C22", Ledger.Driver.handleProg "C22"),
+  ("prog-C23", Ledger.Driver.handleProg "C23"),
+  ("prog-C27", Ledger.Driver.handleProg "C27"),
+  ("postings", Ledger.Driver.handlePostings),
+  ("malformed", Ledger.Driver.handleMalformed)
+]
